@@ -8,7 +8,7 @@
 (* code returned; the invariant compares it with what the specification    *)
 (* computes.                                                               *)
 (***************************************************************************)
-EXTENDS CloverIndex, CloverNorm, CloverStore, Json, IOUtils
+EXTENDS CloverPlan, CloverNorm, CloverStore, Json, IOUtils
 
 Log == ndJsonDeserialize(IOEnv.TRACE_FILE)
 
@@ -100,6 +100,31 @@ CursorOk(e) ==
     /\ e.obs = want
     /\ \A i \in DOMAIN e.gets : e.gets[i][2] = GetOf(e.kv, e.pending, e.gets[i][1])
 
+(* C02: the range the planner derives for the selected index field contains the field value of  *)
+(* every satisfying document (so an index range scan followed by the filter loses nothing), and  *)
+(* a range reported empty admits no satisfying document.                                         *)
+PlanOk(e) ==
+    /\ e.panicked = 0
+    /\ \A i \in DOMAIN e.ranges :
+          LET f == e.ranges[i][1]
+              r == RangeOf(e.ranges[i][2])
+          IN \A k \in DOMAIN e.docs :
+                Sat(e.crit, e.docs[k]) =>
+                   /\ InRange(Get(e.docs[k], f), r)
+                   /\ e.ranges[i][3] = 0
+
+\* advisory (never a verdict): the planner model of CloverPlan.tla agrees with the real visitors
+PlanModelOk(e) ==
+    LET F == {e.indexed[i] : i \in DOMAIN e.indexed}
+        p == Plan(e.crit, F)
+    IN /\ e.selected = p.sel
+       /\ IF IsNoRange(p.range) THEN e.ranges = <<>>
+          ELSE /\ Len(e.ranges) = 1
+               /\ e.ranges[1][1] = p.field
+               /\ RangeOf(e.ranges[1][2]) = p.range
+               /\ e.ranges[1][3] = (IF IsEmptyM(p.range) THEN 1 ELSE 0)
+InvPlanModel == (HaveLast /\ Last.kind = "plan" /\ Last.panicked = 0) => PlanModelOk(Last)
+
 LineOk(e) ==
     CASE e.kind = "values"    -> ValuesOk(e) /\ ValuesModelOk(e)
       [] e.kind = "satisfy"   -> SatisfyOk(e)
@@ -109,6 +134,7 @@ LineOk(e) ==
       [] e.kind = "normdoc"   -> NormDocOk(e)
       [] e.kind = "docpath"   -> DocPathOk(e)
       [] e.kind = "cursor"    -> CursorOk(e)
+      [] e.kind = "plan"      -> PlanOk(e)
       [] e.kind = "Reset"     -> TRUE
 
 InvAux == HaveLast => LineOk(Last)
@@ -117,7 +143,7 @@ InvAux == HaveLast => LineOk(Last)
 InvAuxNoPanic ==
     HaveLast =>
        CASE Last.kind = "satisfy" -> Last.obs # "panic"
-         [] Last.kind \in {"scan", "cursor"} -> Last.panicked = 0
+         [] Last.kind \in {"scan", "cursor", "plan"} -> Last.panicked = 0
          [] Last.kind \in {"norm", "normdoc"} -> Last.obs # <<"panic">>
          [] OTHER -> TRUE
 
